@@ -10,9 +10,12 @@
    tokens of the grammar).  A sequence is DONE (a success) when it ends in PN = PARSE_AT_LEAST
    consecutive Shf or parsing the next lexeme from the configuration it reaches ends in
    Accept; the enumeration stops at the first success along a sequence (the search never
-   expands a success node).  Then: minimum cost, rank by distance parsed (rank_cnds),
-   strip trailing shifts, dedup, sort by (inserts a %avoid_insert token, length)
-   (simplify_repairs). *)
+   expands a success node).  Then: minimum cost, rank by distance parsed (rank_cnds) — the
+   distance of EVERY candidate capped at in_laidx + TRY_PARSE_AT_MOST, the documented look-ahead
+   of the ranking ([far], [cap_dist]; /repo 00915cc; [far_orig] & co. keep the pinned comparison,
+   in which a candidate whose own repairs end beyond that limit was parsed on without limit:
+   C06/RankCapSpec.v) —, strip trailing shifts, dedup, sort by (inserts a %avoid_insert token,
+   length) (simplify_repairs). *)
 From Coq Require Import List Arith NArith Bool Lia.
 From GV Require Import Common.Outcome Base.Grammar LR.Automaton Repair.Semantics Repair.Search.
 Import ListNotations.
@@ -134,8 +137,25 @@ Fixpoint parse_far (n : nat) (stk : vstack) (laidx endp : nat) : nat :=
       end
   end.
 
-(* rank_cnds: apply the sequence, then parse on up to in_laidx + TRY_PARSE_AT_MOST *)
+(* rank_cnds as repaired by /repo 00915cc:
+     let limit = in_laidx + TRY_PARSE_AT_MOST;
+     if laidx < limit { laidx = lr_upto(None, laidx, limit, ..) }
+     let laidx = laidx.min(limit);
+   [d] = where lr_upto stops when it is called, [laidx] = where the candidate's own repairs ended *)
+Definition cap_dist (d laidx limit : nat) : nat :=
+  Nat.min (if (laidx <? limit)%nat then d else laidx) limit.
+
+(* rank_cnds: apply the sequence, then parse on up to in_laidx + TRY_PARSE_AT_MOST, the distance
+   capped there (the code as it is now) *)
 Definition far (TRY : nat) (stk : vstack) (p : nat) (s : list repair) : nat :=
+  match srun s stk p with
+  | Some (stk', p') => cap_dist (parse_far (length input + 2) stk' p' (p + TRY)) p' (p + TRY)
+  | None => O
+  end.
+
+(* the code as it was pinned: lr_upto called unconditionally (it stops at [endp] only when it meets
+   it: a candidate whose repairs end beyond is parsed on without limit), the distance not capped *)
+Definition far_orig (TRY : nat) (stk : vstack) (p : nat) (s : list repair) : nat :=
   match srun s stk p with
   | Some (stk', p') => parse_far (length input + 2) stk' p' (p + TRY)
   | None => O
@@ -148,6 +168,16 @@ Definition ranked_successes (TRY : nat) (sched : list N) (stk : vstack) (p : nat
   | Some (m, l) =>
       let fm := list_max (map (far TRY stk p) l) in
       Some (m, fm, filter (fun s => Nat.eqb (far TRY stk p s) fm) l)
+  end.
+
+(* the reference as it was before the repair: the pinned (uncapped) comparison was built in *)
+Definition ranked_successes_orig (TRY : nat) (sched : list N) (stk : vstack) (p : nat)
+  : option (N * nat * list (list repair)) :=
+  match min_successes sched stk p with
+  | None => None
+  | Some (m, l) =>
+      let fm := list_max (map (far_orig TRY stk p) l) in
+      Some (m, fm, filter (fun s => Nat.eqb (far_orig TRY stk p s) fm) l)
   end.
 
 (* does some Shift of the sequence leave the state stack equal to the one before it?
@@ -193,6 +223,14 @@ Definition all_min_repairs (g : grammar) (A : automaton) (input : list N) (ifuel
     (TRY : nat) (avoid : list N) (sched : list N) (stk : vstack) (p : nat)
   : option (N * nat * list (list repair)) :=
   match ranked_successes g A input ifuel PN costs TRY sched stk p with
+  | None => None
+  | Some (m, fm, l) => Some (m, fm, simplify avoid l)
+  end.
+
+Definition all_min_repairs_orig (g : grammar) (A : automaton) (input : list N) (ifuel PN : nat) (costs : list N)
+    (TRY : nat) (avoid : list N) (sched : list N) (stk : vstack) (p : nat)
+  : option (N * nat * list (list repair)) :=
+  match ranked_successes_orig g A input ifuel PN costs TRY sched stk p with
   | None => None
   | Some (m, fm, l) => Some (m, fm, simplify avoid l)
   end.
